@@ -8,6 +8,7 @@ CONSTANTS
   MaxCap = 5
   TTLs <- RichTTLs
   Rich = TRUE
+  Chain = FALSE
   Emit = TRUE
 INVARIANTS
   InvCapacity
